@@ -475,6 +475,8 @@ pub struct Ctx<F: PrimeField> {
     /// app data appended by T ops, in order (what was actually appended)
     pub appended: Vec<Vec<u8>>,
     pub closures_run: usize,
+    /// indices of the closures in the order the subject invoked them
+    pub closure_order: Vec<usize>,
     /// set when the prover answered MissingAssignment to AN/MN: the history ends there
     pub missing: bool,
     /// what the prover returned for AN/MN when it was not the expected error
@@ -505,6 +507,7 @@ impl<F: PrimeField> Ctx<F> {
             witness_sites: 0,
             appended: vec![],
             closures_run: 0,
+            closure_order: vec![],
             missing: false,
             missing_wrong: None,
         }
@@ -901,14 +904,18 @@ pub type SharedCtx<F> = Rc<RefCell<Ctx<F>>>;
 fn run_closure<F: PrimeField>(ctx: &SharedCtx<F>, ops: &[Op], side: &mut dyn Side<F>, idx: usize, total: usize) -> Result<(), ark_bulletproofs::r1cs::R1CSError> {
     let mut guard = RefCell::borrow_mut(ctx);
     let c: &mut Ctx<F> = &mut guard;
-    if idx == 0 {
+    // the harness does not assume an invocation order: the first closure the subject invokes
+    // marks the phase switch, the last one ends the section
+    if c.closures_run == 0 {
         c.refcs.phase_switch();
     }
+    c.closure_order.push(idx);
     for op in ops {
         exec_op(*op, c, side);
     }
     c.closures_run += 1;
-    end_of_section(c, side, idx + 1 == total, false);
+    let last = c.closures_run == total;
+    end_of_section(c, side, last, false);
     if c.missing && c.role == Role::Prover {
         // what a gadget would do with `?`
         return Err(ark_bulletproofs::r1cs::R1CSError::MissingAssignment);
